@@ -472,7 +472,7 @@ class Executor:
         out = {}
         sol = None
         try:
-            sol = self._call_from_fresh_site(P, dict(method=a.get("method", "auto"), strict=bool(a.get("strict", False)), **_solve_kwargs(a)), shared=bool(a.get("same_site")))
+            sol = self._call_from_fresh_site(P, dict(method=a.get("method", "auto"), strict=bool(a.get("strict", False)), **_solve_kwargs(a)), shared=bool(a.get("same_site")), kind=a.get("site", "plain"))
         except BaseException as e:  # noqa: BLE001 - includes injected KeyboardInterrupt
             if isinstance(e, (KeyboardInterrupt, SystemExit)) and not w.fired:
                 raise
@@ -505,11 +505,31 @@ class Executor:
             rec["ref_unsolvable"] = self.ref_ops(op[1], op, relax=True)
         return out
 
-    def _call_from_fresh_site(self, P, kw, shared=False):
+    @staticmethod
+    def _site_globals(kind, filename):
+        """What the namespace of the user's calling code looks like: a bare dict ("plain": exec'd
+        code, embedded interpreters), the __main__ of `python -c` / the REPL / piped stdin ("main"),
+        of `python script.py` ("script"), of a notebook cell ("nb").  Code that inspects its caller
+        (warnings attributed to the caller's frame) meets all of these."""
+        import builtins
+        import importlib.machinery as im
+
+        if kind == "main":
+            return {"__name__": "__main__", "__doc__": None, "__package__": None, "__spec__": None,
+                    "__loader__": im.BuiltinImporter, "__builtins__": builtins}
+        if kind == "script":
+            return {"__name__": "__main__", "__doc__": None, "__package__": None, "__spec__": None, "__file__": filename,
+                    "__loader__": im.SourceFileLoader("__main__", filename), "__builtins__": builtins}
+        if kind == "nb":
+            return {"__name__": "__main__", "__doc__": None, "__package__": None, "__spec__": None,
+                    "__loader__": None, "__builtins__": builtins}
+        return {}
+
+    def _call_from_fresh_site(self, P, kw, shared=False, kind="plain"):
         """P.solve(**kw) issued from a call site of its own (own file name, own globals): every
         solve of a history is a different line of the user's program as far as Python's
         once-per-location warning registry is concerned."""
-        if shared:
+        if shared and kind == "plain":
             # the same line of a user's helper function (build a model, solve it) executed again
             if self.shared_site is None:
                 self.shared_site = (compile("out = P.solve(**kw)", "<user-op-shared>", "exec"), {})
@@ -518,7 +538,8 @@ class Executor:
             exec(code, g)
             return g.pop("out")
         self.site += 1
-        g = {"P": P, "kw": kw}
+        g = self._site_globals(kind, f"<user-op-{self.site}>")
+        g["P"], g["kw"] = P, kw
         exec(compile("out = P.solve(**kw)", f"<user-op-{self.site}>", "exec"), g)
         return g["out"]
 
